@@ -51,7 +51,7 @@ def rewrite(rsmi, rng, renumber=True, reorder=True):
     ma, mb = _parse_side(a), _parse_side(b)
     maps = sorted(at.GetAtomMapNum() for at in ma.GetAtoms())
     if renumber:
-        shift = rng.choice([0, 0, 0, rng.randint(1, 40)])
+        shift = rng.choice([0, 0, rng.randint(1, 40), rng.randint(95, 900)])     # map numbers with 2 and 3 digits
         new = list(range(1 + shift, len(maps) + 1 + shift))
         rng.shuffle(new)
         ren = dict(zip(maps, new))
